@@ -263,11 +263,22 @@ def _is_key_item(t, an, fx):
     if ev is None or ev["key"] != ITER_NEXT:
         return False
     d = fx.iter_desc(ev)
-    while d and d != "CYCLE" and d[0] == "call" and d[1] in ("core::iter::traits::iterator::Iterator::copied",
-                                                              "alloc::collections::btree::map::BTreeMap::keys",
-                                                              "alloc::collections::btree::map::BTreeMap::iter",
-                                                              "alloc::collections::btree::set::BTreeSet::iter") and d[3]:
-        d = d[3][0]
+    for _ in range(3):
+        while d and d != "CYCLE" and d[0] == "call" and d[1] in ("core::iter::traits::iterator::Iterator::copied",
+                                                                  "alloc::collections::btree::map::BTreeMap::keys",
+                                                                  "alloc::collections::btree::map::BTreeMap::iter",
+                                                                  "alloc::collections::btree::map::BTreeMap::values",
+                                                                  "core::iter::traits::iterator::Iterator::flatten",
+                                                                  "alloc::collections::btree::set::BTreeSet::iter") and d[3]:
+            d = d[3][0]
+        # a row of the receiver reached through an outer loop over its rows: its items are heads
+        s2, p2 = payload_of(d) if d and d != "CYCLE" else (None, None)
+        if s2 is None:
+            break
+        ev2 = fx.an_call_at(s2[1])
+        if ev2 is None or ev2["key"] != ITER_NEXT:
+            break
+        d = fx.iter_desc(ev2)
     if d and d != "CYCLE" and d[0] == "at" and d[1].startswith("A1"):
         return True
     if d and d != "CYCLE" and d[0] == "call" and d[1] == "graaf::op::vertices::Vertices::vertices":
@@ -1093,6 +1104,62 @@ def rule_one_per_pair(crate, prop, tier):
                         # modulus is the loop variable u (range 1..order) / closure parameter
             o.check(ok, pretty, "parent-is-rem-u", "the parent of u is not drawn as `x % u`")
     return o.report(floors={"seeded tournament / tree generators": (o.instances, 8)})
+
+
+# ---------------------------------------------------------------------------
+def rule_filter_verts(crate, prop, tier):
+    """C11: filter_vertices(p) keeps every vertex v of self with p(v), also when no kept arc touches it: the implementation
+    scans the vertex set of self (vertices() / the keys of its map), tests p on the scanned vertex and gives it a row of
+    the result under that test alone.  A result built from the arcs only loses isolated kept vertices."""
+    o = Obl("FILTER-VERTS")
+    prog = crate.prog
+    for im in prog.impls:
+        if im["trait"] != "graaf::op::filter_vertices::FilterVertices":
+            continue
+        for it in im["items"]:
+            if it["name"] != "filter_vertices" or it["path"] not in prog.fns:
+                continue
+            p = it["path"]
+            o.instances += 1
+            an = crate.an(p)
+            fx = crate.fx(p)
+            who = prog.pretty[p]
+            vloops = []
+            for ev in an.events:
+                if ev["k"] == "call" and ev["key"] == ITER_NEXT:
+                    d = fx.iter_desc(ev)
+                    t = d
+                    while t and t != "CYCLE" and t[0] == "call" and t[3] and t[1].split("::")[-1] in ("copied", "cloned", "keys", "iter", "into_iter"):
+                        t = t[3][0]
+                    if t and t != "CYCLE" and ((t[0] == "call" and t[1].endswith("Vertices::vertices")) or
+                                               (t[0] == "at" and t[1].startswith("A1"))):
+                        vloops.append(ev)
+            pipes = [ev for ev in an.events if ev["k"] == "call" and ev["key"] and ev["key"].startswith("core::iter::traits::iterator::Iterator::")
+                     and ev["key"].split("::")[-1] in ("filter", "filter_map", "collect", "fold", "for_each")]
+            if not vloops:
+                if pipes:
+                    o.undecide(who, "vertex-scan", "filter_vertices is written as an iterator pipeline the rule does not interpret")
+                else:
+                    o.check(False, who, "vertex-scan", "filter_vertices never scans the vertex set of self (vertices() / the keys of its "
+                            "map): a kept vertex that no kept arc touches gets no row in the result", prog.fns[p].get("span"))
+                continue
+            good = False
+            for lev in vloops:
+                u = ("field", ("dc", lev["res"], "Some"), "0")
+                body = an.cfg.loops.get(an.cfg.loop_of(lev["b"]), set())
+                tests = [ev for ev in an.events if ev["k"] == "call" and ev["key"] in ("core::ops::function::Fn::call", "core::ops::function::FnMut::call_mut")
+                         and ev["b"] in body and ev["args"] and len(ev["args"]) == 2 and ev["args"][1][0] == "agg" and tuple(ev["args"][1][3]) == (u,)]
+                for ev in an.events:
+                    if ev["k"] == "call" and ev["b"] in body and ev["key"] in ("alloc::collections::btree::map::BTreeMap::entry",
+                                                                              "alloc::collections::btree::map::BTreeMap::insert") \
+                            and len(ev["args"]) >= 2 and ev["args"][1] == u and ev["args"][0][0] == "addr" and ev["args"][0][1].startswith("L"):
+                        # under the test on u alone: not inside a further loop of the body
+                        if an.cfg.loop_of(ev["b"]) == an.cfg.loop_of(lev["b"]) and \
+                                any(fx.holds(ev["b"], lambda rel, t=t: rel.has(("true", t["res"]))) for t in tests):
+                            good = True
+            o.check(good, who, "vertex-kept", "a scanned vertex that satisfies the predicate is not given a row of the result under that test "
+                    "alone (it is kept only when a kept arc touches it)", vloops[0]["span"])
+    return o.report(floors={"filter_vertices impls": (o.instances, 1)})
 
 
 # ---------------------------------------------------------------------------
